@@ -15,8 +15,8 @@ from ..model import header42
 
 FUNC = "int\tft_value(int n)\n{\n\treturn (n + 1);\n}\n"
 
-ROOT_FILES = ["a.c", "b.h", "my file.c", "a.cc", "notes.txt", "x.y.c", "A.C", "Makefile"]
-ROOT_DIRS = ["src", "lib.c", "empty", "my dir", "inc.h", "v1.2"]
+ROOT_FILES = ["a.c", "b.h", "my file.c", "a.cc", "notes.txt", "x.y.c", "A.C", "Makefile", " lead.c"]
+ROOT_DIRS = ["src", "lib.c", "empty", "my dir", "inc.h", "v1.2", "src "]
 CHILD_FILES = ["x.y.c", "v1.2.h", "a.c.bak", "a.hh", "ac", "a.c", "b.h"]
 GITIGNORES = ["*.h\n", "src/\n", "my file.c\n", ""]
 
